@@ -5,6 +5,7 @@ import (
 	"go/ast"
 	"go/types"
 	"runtime/debug"
+	"strings"
 )
 
 // FuncResult is the outcome of generating obligations for one function.
@@ -21,6 +22,9 @@ func (w *World) VerifyFunc(key string) (res *FuncResult) {
 	res = &FuncResult{Key: key}
 	fi := w.Funcs[key]
 	c := w.CS.ByKey[key]
+	if fi == nil && c != nil && c.Kind == "closure" {
+		fi = w.closureInfo(key)
+	}
 	if fi == nil {
 		res.OutOfSubset = "unbound-contract: no function " + key + " in the loaded packages"
 		return
@@ -82,7 +86,7 @@ func (x *Exec) run(res *FuncResult) {
 			v := x.freshVal(st, o.Name(), fr.subst(o.Type()))
 			x.paramFacts(st, v)
 			if p, ok := c.ParamProto[nm.Name]; ok {
-				v.Proto = p
+				v.Proto = x.W.protoOf(p)
 			}
 			args = append(args, v)
 			if nm.Name != "_" {
@@ -91,6 +95,51 @@ func (x *Exec) run(res *FuncResult) {
 		}
 	}
 	x.bindParams(fr, fi.Decl.Type, sig, args, st)
+	ftype, body0 := fi.Decl.Type, fi.Decl.Body
+	if fi.Lit != nil {
+		// a closure: the enclosing function's parameters were bound above; now the captured locals and the literal's own parameters
+		parentC := x.W.CS.ByKey[fi.Key[:strings.LastIndex(fi.Key, "#")]]
+		if parentC != nil {
+			for nm, v := range names {
+				if p, ok := parentC.ParamProto[nm]; ok && v != nil {
+					v.Proto = x.W.protoOf(p)
+				}
+			}
+		}
+		for _, v := range capturedVars(fi.Lit, fr.info) {
+			if _, bound := st.vars[v]; bound {
+				continue
+			}
+			val := x.freshVal(st, v.Name(), v.Type())
+			x.paramFacts(st, val)
+			st.vars[v] = val
+			names[v.Name()] = val
+		}
+		lsig := fr.info.TypeOf(fi.Lit).(*types.Signature)
+		var largs []*Val
+		for _, fld := range fi.Lit.Type.Params.List {
+			for _, nm := range fld.Names {
+				o, _ := fr.info.Defs[nm].(*types.Var)
+				if o == nil {
+					largs = append(largs, &Val{})
+					continue
+				}
+				v := x.freshVal(st, o.Name(), o.Type())
+				x.paramFacts(st, v)
+				if p, ok := c.ParamProto[nm.Name]; ok {
+					v.Proto = x.W.protoOf(p)
+				} else if c.Yields != "" {
+					if _, isFn := o.Type().Underlying().(*types.Signature); isFn {
+						v.Proto = "yield." + c.Yields
+					}
+				}
+				largs = append(largs, v)
+				names[nm.Name] = v
+			}
+		}
+		x.bindParams(fr, fi.Lit.Type, lsig, largs, st)
+		ftype, body0, sig = fi.Lit.Type, fi.Lit.Body, lsig
+	}
 	// frame from the modifies clause
 	x.frameAll = map[string]bool{}
 	x.frameLocs = map[string][]*Term{}
@@ -127,7 +176,7 @@ func (x *Exec) run(res *FuncResult) {
 	_ = entrySt
 	body := st.clone()
 	paths := 0
-	x.runBody(fr, fi.Decl.Type, sig, fi.Decl.Body, body, func(s *St, v *Val) {
+	x.runBody(fr, ftype, sig, body0, body, func(s *St, v *Val) {
 		paths++
 		x.checkPost(s, fr, v, names)
 	})
@@ -144,6 +193,19 @@ func (x *Exec) checkPost(st *St, fr *Frame, v *Val, names map[string]*Val) {
 	c := x.C
 	fi := x.Fn
 	sig := fi.Obj.Type().(*types.Signature)
+	if fi.Lit != nil {
+		sig = fr.info.TypeOf(fi.Lit).(*types.Signature)
+	}
+	if c.Yields != "" && fi.Lit == nil {
+		want := x.W.protoOf(c.Yields)
+		got := ""
+		if v != nil {
+			got = v.Proto
+		}
+		if !x.W.protoCompatible(got, want) {
+			x.emit(st, oblTemplate{kind: "proto", label: "yields", clause: "the returned iterator obeys stream " + c.Yields + " (got " + got + ")"}, nil, False)
+		}
+	}
 	post := map[string]*Val{}
 	for k, val := range names {
 		post[k] = val
@@ -161,7 +223,7 @@ func (x *Exec) checkPost(st *St, fr *Frame, v *Val, names map[string]*Val) {
 			post["result"] = rv
 		}
 	}
-	if fi.Decl.Type.Results != nil {
+	if fi.Decl.Type.Results != nil && fi.Lit == nil {
 		j := 0
 		for _, fld := range fi.Decl.Type.Results.List {
 			for _, nm := range fld.Names {
@@ -190,6 +252,17 @@ func (x *Exec) checkPost(st *St, fr *Frame, v *Val, names map[string]*Val) {
 			x.emit(st, oblTemplate{kind: "post", label: e.Label, clause: e.Text, props: e.Props, pos: e.Pos}, nil, env.Formula(e.Expr))
 		}
 	})
+	if fi.Lit != nil && c.Yields != "" && !st.yielded {
+		// the producer finishes without having yielded anything: the stream's finish condition must hold
+		if sc := x.W.CS.ByKey["stream."+c.Yields]; sc != nil {
+			x.wrapCfail("finish condition of stream "+c.Yields, func() {
+				for _, e := range sc.Ensures {
+					x.emit(st, oblTemplate{kind: "finish", label: e.Label, clause: e.Text, props: e.Props, pos: e.Pos,
+						name: fi.Key + "/finish#" + c.Yields + "/" + e.Label}, nil, env.Formula(e.Expr))
+				}
+			})
+		}
+	}
 	x.assertWF(st, "exit", "")
 	if x.ncanary < 12 {
 		x.ncanary++
@@ -326,6 +399,12 @@ func (w *World) lemmaAxiom(x *Exec, lc *Contract, lf *FuncInfo) *Term {
 func (w *World) ContractedFuncs() []string {
 	var out []string
 	for _, c := range w.CS.Order {
+		if c.Kind == "closure" {
+			if fi := w.closureInfo(c.Key); fi != nil && !c.Flags["assumed"] {
+				out = append(out, c.Key)
+			}
+			continue
+		}
 		if c.Kind == "func" || c.Kind == "lemma" || c.Kind == "spec" {
 			if fi, ok := w.Funcs[c.Key]; ok && fi.Decl != nil {
 				if c.Flags["helper"] && !c.Flags["verify"] && len(c.Ensures) == 0 {
